@@ -7,8 +7,9 @@ package main
 // to, transitively:
 //   - a bare identifier refers to the package-level declarations of that name in the same package;
 //   - pkg.Name, where pkg is an import of a package of this module, refers to Name in that package;
-//   - x.Name for any other x refers to every method or function called Name in the same package and in
-//     the module packages the file imports (this is how calls through interfaces are followed).
+//   - x.Name for any other x refers to every declaration called Name in the same package and to every method
+//     called Name anywhere in the module (this is how calls through interfaces are followed, also to
+//     implementations in packages that import this one, e.g. the report codecs).
 // Over-approximation only adds fingerprints.  Generated protobuf files and tests are left out.
 
 import (
@@ -123,11 +124,17 @@ func (idx *reachIndex) refs(d *rdecl) []*rdecl {
 					return true
 				}
 			}
-			// a method / field access: every declaration of that name here and in the imported module packages
+			// a method / field access: every declaration of that name in this package and every METHOD of that name
+			// anywhere in the module (the receiver may be an interface whose implementations live in packages that
+			// import this one: report codecs, caches, data sources)
 			out = append(out, idx.byDir[d.dir][se.Sel.Name]...)
-			dirs := make([]string, 0, len(d.imp))
-			for _, dir := range d.imp {
-				dirs = append(dirs, dir)
+			dirs := make([]string, 0, len(idx.byDir))
+			top := func(dir string) string { return strings.SplitN(dir, "/", 2)[0] }
+			for dir := range idx.byDir {
+				// llo, mercury and rpc are separate products: none implements an interface of another
+				if dir != d.dir && top(dir) == top(d.dir) {
+					dirs = append(dirs, dir)
+				}
 			}
 			sort.Strings(dirs)
 			for _, dir := range dirs {
